@@ -164,7 +164,7 @@ def enum_vector(big):
             targets = ["addfirst " + x, "addlast " + x, "addat 1 " + x, "addat -1 " + x, "addat 9 " + x, "addnull 0",
                        "getfirst 1", "getlast 1", "getat 1 1", "getat 0 0", "getat 9 1",
                        "popfirst", "poplast", "popat 1", "popat 9", "removefirst", "setat 0 " + x,
-                       "toarray", "reverse", "clear", "resize 0", "resize 1", "resize %d" % max(n, 1), "resize %d" % (n + 3)]
+                       "toarray", "reverse", "clear", "lockprobe"] + ["resize %d" % m for m in range(n + 4)]   # every capacity: shrink, same, grow
             for t in targets:
                 for arm in ARMS[:2] + ARMS[3:4]:
                     ops += pre + [arm, t] + after
@@ -210,6 +210,8 @@ def rand_list(rng, length, pfault):
             continue
         if rng.random() < 0.02:
             h.append("inv")          # every documented-invalid call: nothing may change, nothing may leak
+        if rng.random() < 0.01:
+            h.append("lockprobe"); n += 1
         maybe_arm(rng, h, pfault)
         if r < 0.45:
             h.append(rng.choice(["addfirst " + e, "addlast " + e, "addat %d %s" % (idx, e)])); n += 1
@@ -272,13 +274,15 @@ def rand_grow(rng, length, pfault):
 
 
 def rand_vector(rng, length, pfault):
-    os_ = rng.choice([1, 2, 3, 8, 17])
+    os_ = rng.choice([1, 2, 3, 8, 17] * 4 + [257, 300])      # now and then elements larger than any block buffer
     opt = rng.randrange(16)          # every combination of the documented option bits
     h = ["new %d %d %d" % (rng.choice([0, 0, 1, 2, 5]), os_, opt)]
     n = 0
     while len(h) < length:
         if rng.random() < 0.02:
             h.append("inv")
+        if rng.random() < 0.01:
+            h.append("lockprobe"); n += 1
         maybe_arm(rng, h, pfault)
         idx = rng.randrange(-n - 2, n + 3)
         e = hexs(bytes(rng.choice([0, 0, 255, rng.randrange(256)]) for _ in range(os_)))
